@@ -107,6 +107,41 @@ def _train_case(c):
     return fails, n
 
 
+def _large_case(c):
+    """natural-size training set (tens of thousands of samples, design matrices with millions of entries): the design matrix holds the
+    basis values at ALL training points and the surpluses solve the normal equations; reference evaluated with vectorised tensor hats"""
+    from sparseSpACE.GridOperation import Regression
+    key = {"training": "standard_large_data", "matrix": c["matrix"], "regularised": c["lambda"] != 0}
+    m = c["samples"]
+    i = np.arange(1, m + 1, dtype=float)
+    X = np.stack([(i * 0.6180339887498949) % 1.0, (i * 0.7548776662466927) % 1.0], axis=1)      # deterministic low-discrepancy points
+    y = TARGETS[c["targets"]](X)
+    op = Regression(X.copy(), y.copy(), c["lambda"], c["matrix"], print_level=1000, log_level=1000)
+    combi = op.train(0.2, c["lmin"], c["lmax"])
+    Xt, yt = np.asarray(op.training_data, dtype=float), np.asarray(op.training_target_values, dtype=float)
+    fails, n = [], 0
+    for comp in combi.scheme:
+        lv = [int(x) for x in comp.levelvector]
+        H = [np.maximum(0.0, 1.0 - np.abs(Xt[:, k, None] * 2 ** l - np.arange(1, 2 ** l)[None, :])) for k, l in enumerate(lv)]
+        A = (H[0][:, :, None] * H[1][:, None, :]).reshape(len(Xt), -1)
+        op.grid.numPoints = 2 ** np.array(lv) - 1
+        A_impl = np.asarray(op.build_A_matrix(lv), dtype=float)
+        if A_impl.shape != A.shape or not np.allclose(A_impl, A, rtol=1e-12, atol=1e-14):
+            bad = int(np.sum(np.any(np.abs(A_impl - A) > 1e-12, axis=1))) if A_impl.shape == A.shape else -1
+            fails.append(fail("design_matrix", "level %r, %d training points: build_A_matrix differs from the hat values in %d rows" % (lv, len(Xt), bad), key))
+        al = np.asarray(op.surpluses[tuple(comp.levelvector)], dtype=float).ravel()
+        mm = len(yt)
+        if c["lambda"] == 0:
+            res, scale = A.T @ (A @ al - yt), max(1.0, float(np.max(np.abs(A.T @ yt))))
+        else:
+            res = (A.T @ A / mm + c["lambda"] * np.eye(len(al))) @ al - A.T @ yt / mm
+            scale = max(1.0, float(np.max(np.abs(A.T @ yt / mm))), float(np.max(np.abs(al))))
+        if float(np.max(np.abs(res))) > 1e-8 * scale:
+            fails.append(fail("normal_equations", "level %r, %d training points: residual %r" % (lv, len(Xt), float(np.max(np.abs(res)))), key))
+        n += 1
+    return fails, n
+
+
 def _retrain_case(c):
     """ONE Regression object is trained twice (different split and level range): the surpluses reported after the second training must
     satisfy the normal equations of the SECOND problem on every component grid"""
@@ -233,7 +268,7 @@ def _cmatrix_tree_case(c):
 
 def run_case(case):
     c = case["config"]
-    fn = {"train": _train_case, "retrain": _retrain_case, "opticom": _opticom_case, "adaptive": _adaptive_case, "C_uniform": _cmatrix_uniform_case,
+    fn = {"train": _train_case, "retrain": _retrain_case, "opticom": _opticom_case, "large": _large_case, "adaptive": _adaptive_case, "C_uniform": _cmatrix_uniform_case,
           "C_tree": _cmatrix_tree_case}[c["kind"]]
     fails, n = fn(c)
     return {"failures": fails, "canon": core.config_key(c), "outcome": (n, len(fails)), "nontrivial": True, "evals": n}
@@ -242,6 +277,9 @@ def run_case(case):
 def cases(tier):
     q = tier == "quick"
     out = []
+    # natural-size data (both sides of any size-dependent chunking: 2^22 entries of a design matrix are reached from ~20 000 points on)
+    for samples, lam in ((33000, 0.0), (33000, 0.01)) + (() if q else ((60000, 0.0), (9000, 0.0))):
+        out.append({"config": {"kind": "large", "samples": samples, "targets": "smooth", "lambda": lam, "matrix": "I", "lmin": 1, "lmax": 6}})
     for d in (1, 2):
         for targets in TARGETS:
             for lam in (0.0, 0.1, 1e-3):
